@@ -284,12 +284,32 @@ Theorem C13_dfxp_inline_refuses_with_relativization_error : forall c s e, w_rel 
 Proof. exact dfxp_inline_refuses_with_relativization_error. Qed.
 Print Assumptions C13_dfxp_inline_refuses_with_relativization_error.
 
-(* completeness for what is written as REGIONS: RegionCreator builds its table from the language / caption / node layouts
-   of the transformed set (C12's region_map), so every <region> of the document is made from a percentage layout *)
+(* what is written as REGIONS, for the region table built from the WRITTEN languages (C12's region_map over the
+   transformed set): every key is a percentage layout.  This is the whole table of the real RegionCreator only when every
+   language of the set is written (no force=, or a set with one language): with force=lang the real table also holds
+   regions made from the UNTRANSFORMED layouts of the other languages; they are unreferenced (and removed by
+   cleanup_regions) except through the set-level fallback of get_positioning_info - the real writer then prints a px region
+   with relativization on: known finding C13-dfxp-set-level-fallback-region (a defect of the code, recorded failure-keyed;
+   the generator produces the force= shape on every run).  Both writer modes: *)
 Theorem C13_dfxp_regions_percent : forall c s s', w_rel c = true -> dfxp_transform c s = Ok s' ->
   forall k id, In (k, id) (region_map (written_layouts s')) -> all_pct k = true.
 Proof. exact dfxp_regions_percent. Qed.
 Print Assumptions C13_dfxp_regions_percent.
+
+Theorem C13_dfxp_inline_regions_percent : forall c s s', w_rel c = true -> dfxp_transform_inline c s = Ok s' ->
+  forall k id, In (k, id) (region_map (written_layouts s')) -> all_pct k = true.
+Proof. exact dfxp_inline_regions_percent. Qed.
+Print Assumptions C13_dfxp_inline_regions_percent.
+
+(* two captions with == px layouts (64/1 and 128/2) share ONE region, made from the relativized layout *)
+Example C13_ex_regions_shared :
+  let l n d := mkLayout (Some (mkPoint (mkSize (n # d) PX) (mkSize (36 # 1) PX))) None None None None in
+  match dfxp_transform (mkCfg true false (Some (640 # 1)) (Some (360 # 1)))
+          (mkNset None [mkNlang None [mkNcap (Some (l 64 1%positive)) []; mkNcap (Some (l 128 2%positive)) []]]) with
+  | Ok s' => map (fun kv => (snd kv, all_pct (fst kv))) (region_map (written_layouts s')) = [(RId 0, true); (RDefault, true)]
+  | Err _ => False
+  end.
+Proof. vm_compute. reflexivity. Qed.
 
 (* set-level origin 64px 36px, nothing else: with inline positioning the div and the p carry it - as 10% 10% with a
    640x360 video, and the writer refuses without a video size *)
@@ -303,16 +323,18 @@ Example C13_ex_inline :
   /\ existsb (opt_needs (mkCfg true false None None)) (ns_layout s :: written_layouts s) = true.
 Proof. vm_compute. repeat split. Qed.
 
-(* down to the TEXT of the DFXP document: with relativization on, the attribute strings printed for every <region>
-   (tts:origin / tts:extent / tts:padding through Size.__str__) read back - C12's model of the reader's
-   from_xml_attribute - as a layout whose lengths are all percentages.  Lengths non-negative (the size language). *)
+(* PARTIAL (hypothesis on the RESULT s', not on the input: that as_percentage_of and the repaired fit_to_screen keep
+   lengths non-negative is not proved here; and, as above, the table of the written languages only).  With relativization
+   on, the attribute values layout_attrs prints for every region of that table (tts:origin / tts:extent / tts:padding through
+   the model of Size.__str__) are read by C12's MODEL of the reader's from_xml_attribute (read_region) as a layout whose
+   lengths are all percentages.  (That the strings end in "%" is C18's shape of size_str; not restated here.) *)
 From PV Require Import proofs.DfxpTreeFacts proofs.Pos13DocFacts.
-Theorem C13_dfxp_document_regions_percent : forall c s s', w_rel c = true -> dfxp_transform c s = Ok s' ->
+Theorem C13_dfxp_document_regions_percent_partial : forall c s s', w_rel c = true -> dfxp_transform c s = Ok s' ->
   Forall opt_nonneg (written_layouts s') ->
   forall id a, In (id, a) (map (fun kv => (snd kv, layout_attrs (fst kv))) (region_map (written_layouts s'))) ->
   exists r, read_region a = Ok r /\ all_pct r = true.
 Proof. exact dfxp_document_regions_percent. Qed.
-Print Assumptions C13_dfxp_document_regions_percent.
+Print Assumptions C13_dfxp_document_regions_percent_partial.
 
 Example C13_ex_document_region :
   let c := mkCfg true true (Some (640 # 1)) (Some (360 # 1)) in
@@ -329,14 +351,19 @@ Proof.
   repeat constructor; cbn; intros H; discriminate H.
 Qed.
 
-(* "WebVTT output never contains a non-percentage length" at the level of the printed TEXT (model/VttText.v: the string
-   _convert_positioning returns, request 1321): computed cue settings are [" align:<name>"] [" position:<n>%"] [" line:<n>%"]
-   [" size:<n>%"], every length a number (digits, optionally a point and one or two digits) followed by the percent sign -
-   in every configuration; lengths non-negative (a padding wider than the cue gives a negative size, outside the size language) *)
+(* "WebVTT output never contains a non-percentage length" on the printed string (model/VttText.v vtt_settings_text = the
+   string _convert_positioning returns, request 1321): for computed cue settings it is [" align:<name>"] followed by, for each
+   of position / line / size, nothing (absent) or the key and a number (digits, optionally a point and one or two digits)
+   followed by "%".  vs_nonneg constrains the OUTPUT settings (a padding wider than the cue gives a negative size, outside
+   the size language; about a fifth of the stream's cases). *)
 From PV Require Import model.DfxpAlign model.VttText proofs.GeomPrint proofs.Pos13VttTextFacts.
 Theorem C13_vtt_text_percent : forall c lo v, vtt_convert_positioning c lo = Ok (VSet v) -> vs_nonneg v ->
-  forall z, In (Some z) [vs_position v; vs_line v; vs_size v] -> pct_text (size_str z).
-Proof. exact vtt_text_percent. Qed.
+  exists t1 t2 t3,
+    vtt_settings_text (VSet v)
+    = (match vs_align v with Some h => lit " align:" ++ halign_name h | None => [] end) ++ t1 ++ t2 ++ t3
+    /\ setting_pct (lit " position:") (vs_position v) t1 /\ setting_pct (lit " line:") (vs_line v) t2
+    /\ setting_pct (lit " size:") (vs_size v) t3.
+Proof. exact vtt_settings_text_percent. Qed.
 Print Assumptions C13_vtt_text_percent.
 
 Example C13_ex_vtt_text :
